@@ -32,6 +32,7 @@ template<class K> struct StaticCase {
     int lifecycle = -1; ///< how the queried object came to be (see object_lifecycle); -1: derived from the input hash
     std::string family;
     bool chunked = false;
+    bool query_all = false; ///< every key is queried (cases whose faults are confined to a few hundred unpredictable keys)
     std::vector<size_t> seams; // indices of interest (chunk boundaries) for chunked cases
 };
 
@@ -248,6 +249,22 @@ StaticCase<K> gen_big_case(Ctx &c, size_t eps) {
     return sc;
 }
 
+/// Hundreds of thousands of keys with a segment every few keys (gen_irregular_keys), built with many threads and with every
+/// key queried: the UPPER levels are then large enough (>= 2^15 entries) to be built in up to 20 chunks themselves, wherever
+/// the class chooses to do that, and whatever goes wrong around one of those cuts - a few hundred keys - is looked at.
+template<class K>
+StaticCase<K> gen_many_segments_case(Ctx &c) {
+    StaticCase<K> sc;
+    sc.chunked = true;
+    sc.threads = c.rng.pick<int>({2, 7, 13, 16, 19, 20});
+    sc.keys = gen_irregular_keys<K>(c.rng, 340000 + c.rng.below(c.thorough() ? 700000 : 260000));
+    sc.family = "many_segments";
+    sc.query_all = true;
+    size_t chunk = sc.keys.size() / size_t(sc.threads);
+    for (int i = 1; i < sc.threads; ++i) sc.seams.push_back(size_t(i) * chunk);
+    return sc;
+}
+
 template<class K>
 StaticCase<K> make_static_case(Ctx &c, size_t eps, bool chunked, size_t maxn_small, size_t maxn_big, size_t eps_rec = 0) {
     StaticCase<K> sc;
@@ -257,12 +274,27 @@ StaticCase<K> make_static_case(Ctx &c, size_t eps, bool chunked, size_t maxn_sma
         sc.threads = c.given->one<int>("threads", 1);
         sc.procs = c.given->one<int>("procs", 32);
         sc.lifecycle = c.given->one<int>("lifecycle", 0);
+        sc.query_all = c.given->one<int>("query_all", 0) != 0;
         sc.family = c.given->one_str("family", "spec");
         sc.chunked = sc.keys.size() >= (1u << 15) && sc.threads > 1;
         sc.seams = c.given->vec<size_t>("seams");
         return sc;
     }
     if (chunked) {
+        if constexpr (std::is_integral_v<K> && sizeof(K) == 8) {
+            if (eps >= 64 && c.rng.chance(1, 3)) {
+                // one segment of 10^5 keys or more whose hulls outgrow their reservation (see gen_gentle_curve); few chunks,
+                // so that a chunk still holds that many points
+                sc.chunked = true;
+                sc.threads = 1 + int(c.rng.below(3));
+                size_t n = 150000 + c.rng.below(c.thorough() ? 450000 : 250000);
+                sc.keys = gen_gentle_curve<K>(c.rng, n, c.rng.chance(1, 2) ? 500 + c.rng.below(4000) : 0);
+                sc.family = "big_gentle_curve";
+                size_t chunk = sc.keys.size() / size_t(sc.threads);
+                for (int i = 1; i < sc.threads; ++i) sc.seams.push_back(size_t(i) * chunk);
+                return sc;
+            }
+        }
         if constexpr (std::is_integral_v<K>) {
             if (sizeof(K) >= 4 && c.rng.chance(3, 4))
                 return gen_seam_case<K>(c.rng, eps, maxn_big);
@@ -297,6 +329,7 @@ template<class K> Spec static_spec(const Ctx &c, const StaticCase<K> &sc, const 
     s.set_one("threads", sc.threads);
     s.set_one("procs", sc.procs);
     s.set_one("lifecycle", sc.lifecycle);
+    s.set_one("query_all", sc.query_all ? 1 : 0);
     s.set_vec("keys", sc.keys);
     if (queries_run.size() <= 2000) s.set_vec("queries", queries_run);
     if (!sc.seams.empty()) s.set_vec("seams", sc.seams);
@@ -374,7 +407,15 @@ void run_static(Ctx &c, StaticCase<K> &sc, char which, Extra &extra) {
     size_t cap = sc.chunked ? 12000 : 4000;
     if (sc.keys.size() > (size_t(1) << 20)) cap = 60000;
     if (sc.keys.size() > (size_t(1) << 24)) cap = (c.prop("C07") || c.prop("C04") || c.prop("C17")) ? 20000 : 400000;
-    std::vector<K> qs = sc.queries.empty() ? gen_queries(sc.keys, c.rng, cap, present_only) : sc.queries;
+    std::vector<K> qs = sc.queries.empty() ? gen_queries(sc.keys, c.rng, sc.query_all ? 4000 : cap, present_only) : sc.queries;
+    if (sc.query_all && sc.queries.empty()) {
+        for (size_t i = 0; i < n; ++i)
+            if (i == 0 || sc.keys[i] != sc.keys[i - 1]) {
+                qs.push_back(sc.keys[i]);
+                if (!present_only && i % 4 == 0 && sc.keys[i] < key_maxvalid<K>()) qs.push_back(key_succ(sc.keys[i]));
+            }
+        c.count("cases_with_every_key_queried");
+    }
     if (sc.queries.empty() && !present_only) {
         for (size_t s : sc.seams) { // everything around the chunk boundaries
             for (size_t j = (s >= 3 ? s - 3 : 0); j < std::min(n, s + 4); ++j) {
@@ -568,6 +609,62 @@ void run_sweep(Ctx &c, char which) {
             off += 1 + r.below(3);
         }
         c.count("universe_sweep_indexes_built", c_universe_steps);
+
+        // Threshold sweep: prefix lengths around the one at which the high bit vector reaches 100000 bits - below that size
+        // the succinct library builds its select directories by another routine, without the explicitly stored long blocks.
+        // ONE long-lived object is copy- / move-assigned every new index, walking down across the threshold and up again, so
+        // that whatever an assignment leaves behind from the previous, differently built content is queried.
+        if constexpr (std::is_copy_assignable_v<Idx> && std::is_move_assignable_v<Idx> && std::is_default_constructible_v<Idx>) {
+            auto hb_of = [&](size_t len) { Idx p(master.begin(), master.begin() + len); return p.high_bits(); };
+            size_t lo = 2000, hi = n0;
+            if (hb_of(hi) >= 100000 && hb_of(lo) < 100000) {
+                while (hi - lo > 1) { size_t mid = lo + (hi - lo) / 2; (hb_of(mid) >= 100000 ? hi : lo) = mid; }
+                const size_t L = hi; // the shortest prefix with >= 100000 high bits
+                std::vector<size_t> walk;
+                const int half = c.thorough() ? 40 : 22;
+                for (int i = half; i >= -half; --i) walk.push_back(size_t(std::max<long long>(2000, (long long) L + i * 12)));
+                for (int i = -half; i <= half; ++i) walk.push_back(size_t(std::max<long long>(2000, (long long) L + i * 12 + 5)));
+                Idx holder;
+                uint64_t crossings = 0, tsteps = 0;
+                bool prev_big = false;
+                for (size_t wi = 0; wi < walk.size() && c.violations_in_case < 3; ++wi) {
+                    size_t len = std::min(walk[wi], n0);
+                    std::vector<K> pk(master.begin(), master.begin() + len);
+                    {
+                        std::unique_ptr<Idx> fresh(new Idx(pk.begin(), pk.end()));
+                        if (wi % 3 == 1) holder = *fresh;
+                        else holder = std::move(*fresh);
+                    }
+                    bool big = holder.high_bits() >= 100000;
+                    if (wi > 0 && big != prev_big) ++crossings;
+                    prev_big = big;
+                    ++tsteps;
+                    std::vector<K> qs;
+                    for (size_t i = len > 120 ? len - 120 : 0; i < len; ++i) {
+                        qs.push_back(pk[i]);
+                        if (pk[i] < key_maxvalid<K>()) qs.push_back(key_succ(pk[i]));
+                    }
+                    for (int i = 0; i < 60; ++i) qs.push_back(pk[r.below(len)]);
+                    qs.push_back(key_maxvalid<K>());
+                    for (const K &q : qs) {
+                        if (which == 'P' && !std::binary_search(pk.begin(), pk.end(), q)) continue;
+                        auto res = holder.search(q);
+                        ++queries;
+                        size_t expect = 0;
+                        const char *bad = which == 'B' ? judge_search(pk, q, res, Eps, true, true, true, expect) : nullptr;
+                        if (bad) {
+                            c.violation(bad, J().num("q", q).num("lo", res.lo).num("hi", res.hi).num("pos", res.pos).num("expected_lower_bound", expect)
+                                                 .num("n", len).num("eps", Eps).num("threshold_sweep_step", wi).num("high_bits", holder.high_bits())
+                                                 .str("object", wi % 3 == 1 ? "copy-assigned over the previous index" : "move-assigned over the previous index"));
+                            break;
+                        }
+                    }
+                }
+                c.count("threshold_sweep_indexes_assigned", tsteps);
+                c.count("threshold_sweep_crossings_of_100000_high_bits", crossings);
+            } else
+                c.count("threshold_sweep_not_applicable");
+        }
     }
     c.count("sweep_indexes_built", lens.size());
     c.count("queries", queries);
